@@ -26,6 +26,12 @@ func isProcessMethod(w *World, fn *ssa.Function) bool {
 
 func roleProblems(r *Report, rule string, ir *inboxRoles) bool {
 	if len(ir.problems) > 0 {
+		for _, p := range ir.problems {
+			if strings.HasPrefix(p, "no CAS(idle->running)") {
+				r.Fail(rule, "Inbox:worker-token", "the worker hand-off (Scheduler.Schedule) is guarded by the success edge of one atomic CAS(idle->running)", "-",
+					"no compare-and-swap guards the hand-off (e.g. a load followed by a store): two senders can both see 'idle' and start two workers; deliveries overlap and reorder")
+			}
+		}
 		r.Unknown(rule, "roles", "resolve the inbox roles (status word, scheduling function, worker, loop)", "-", strings.Join(ir.problems, "; "))
 		return true
 	}
